@@ -20,6 +20,7 @@ from ..monitor import CaseTimeout, bump, install, violation
 from ..workloads import markers as MW
 
 PROP = "C11"
+ANCHORS = ['dep_logic.markers.single:MarkerExpression._get_specifier', 'dep_logic.markers.single:MarkerExpression.from_specifier', 'dep_logic.markers.single:_normalize_python_version_specifier', 'dep_logic.markers.single:_merge_python_version_single_markers']
 RULE = ("Exhaustive stratum: variable {python_version, python_full_version} x operator {==, !=, <, <=, >, >=, ~=, "
         "==X.*, !=X.*} x operand shapes (X, X.Y, X.Y.Z incl. trailing .0) x both operand orders, python_version "
         "in/not in lists; every simple specifier (single comparison, ~=, ==X.*, !=V, !=X.*, pairs rendering as ~= or "
